@@ -71,7 +71,8 @@ fn attr_byte(run: &mut Run, m: u8, b: u8) {
 /// the oracle's own notion of "expressible in a mode" (independent of the Lean text): what a DOS attribute byte can
 /// carry under that mode's reading of bit 7
 fn expressible(m: u8, fg: u32, bg: u32, blink: bool, bold: bool) -> bool {
-    if bold || fg > 15 {
+    // bold sets fg bit 3 in the byte, so a bold attribute is carried exactly when its foreground is already bright
+    if fg > 15 || (bold && fg < 8) {
         return false;
     }
     match m {
